@@ -122,6 +122,36 @@ def rule_r1(rep, program: Program):
                     sc2, site = per_chain_sites[0]
                     r.violate(PROP, f"{m.qualname}:base-rng-draw-per-chain", f"{m.qualname} draws from the sampler's base generator (`{norm(n)[:60]}`) and is invoked once per chain in {sc2.qualname} (`{norm(site)[:50]}`) before the per-chain streams are derived from that generator's current state (`jumped(i)` is state-relative): every chain's stream - and so its whole output - depends on how many chains are run", node=n, file=m.file)
     r.inst({"base generator uses outside the derivation": n_uses})
+    # the streams are derived once per run: `jumped(i)` / `spawn` of an unadvanced base generator give
+    # the same streams again, i.e. a second derivation within one sample_chains call replays them
+    for k in samplers:
+        if k.resolve("sample_chains") is None:
+            continue
+        chain, seen_f = [], set()
+        f = k.resolve("sample_chains")
+        cls = f.cls
+        while f is not None and f.qualname not in seen_f:
+            seen_f.add(f.qualname)
+            chain.append(f)
+            nxt = None
+            for c in ast.walk(f.node):
+                if isinstance(c, ast.Call) and norm(c.func) == "super().sample_chains":
+                    nxt = k.resolve_super(cls, "sample_chains")
+            if nxt is None:
+                break
+            f, cls = nxt, nxt.cls
+        derivs = []
+        for g in chain:
+            # helpers called on self from the entry point count too (one level)
+            bodies = [g] + [k.resolve(c.func.attr) for c in ast.walk(g.node) if isinstance(c, ast.Call) and isinstance(c.func, ast.Attribute) and isinstance(c.func.value, ast.Name) and c.func.value.id == "self" and k.resolve(c.func.attr) is not None and c.func.attr != "sample_chains"]
+            for b in bodies:
+                for c in ast.walk(b.node):
+                    if isinstance(c, ast.Call) and norm(c.func) == "_get_per_chain_rngs":
+                        derivs.append((b, c))
+        r.inst({"sampler": k.name, "stream derivations per sample_chains call": [b.qualname for b, _ in derivs]})
+        if len(derivs) > 1:
+            b, c = derivs[0]
+            r.violate(PROP, f"{k.name}.sample_chains:streams-derived-{len(derivs)}-times", f"one {k.name}.sample_chains call derives the per-chain generators {len(derivs)} times ({', '.join(x.qualname for x, _ in derivs)}) from a base generator that is not advanced in between: both derivations yield the same streams, so the numbers drawn from the first set (e.g. the initial momenta) are drawn again by the chains - a stream is replayed within a run", node=c, file=b.file)
     return r
 
 
